@@ -21,6 +21,7 @@ EXPLANATION = (
     'only when its presence bit is set; D4 page-list links are written only under page_mutex (documented non-thread-safe '
     'functions excepted); D6 lanes: n_queue is a power of two and coprime with the stride (witnesses).  Linearizability, '
     'per-producer order and the capacity bound as history properties are NOT decided.')
+EXPLANATION += ' Added after the seeded-change rounds: ' + 'D5: the bounded-queue wake-up predicate is downward closed (shared with C02); D7: every ordering comparison of a counter difference (tail - head, ticket - capacity; followed through locals and lambda captures) is evaluated in a signed type.'
 ASSUMPTIONS = ['raii_guard / try_call idiom model (checked in C03-D5)', 'instantiations: concurrent_queue<int|string>, concurrent_bounded_queue<int|string>']
 ND = ['linearizability', 'per-producer FIFO order', 'capacity bound as a history property']
 LOCKCLS = lambda c: c.endswith('scoped_lock')   # noqa: E731
